@@ -112,7 +112,7 @@ func (md *Metadata) Validate() error {
 		return ValidationError("chart.metadata.name is required")
 	}
 
-	if md.Name != filepath.Base(md.Name) {
+	if md.Name != filepath.Base(md.Name) || md.Name == "." || md.Name == ".." {
 		return ValidationErrorf("chart.metadata.name %q is invalid", md.Name)
 	}
 
